@@ -409,6 +409,19 @@ func runC08(c *core.Ctx) {
 		}
 	}
 
+	c.Rule("C08.memberthenfinish", "the C19.memberthenfinish obligations, reported under this property as well (the two build routes give the same node: a stringprefix union decoded into a typed map is stored without a member when the enclosing finish hook runs before the member is set)", 2)
+	{
+		sub := &core.Ctx{P: p, Prop: "C08"}
+		runC19(sub)
+		for _, o := range sub.Obls {
+			if o.Rule == "C19.memberthenfinish" && !strings.HasSuffix(o.Construct, "#instance-floor") {
+				o.Rule = "C08.memberthenfinish"
+				o.Property = "C08"
+				c.Obls = append(c.Obls, o)
+			}
+		}
+	}
+
 	c.Rule("C08.nullsame", "the read routes of one node agree on what is null: in bindnode, every place that answers datamodel.Null (or datamodel.Absent) for a field or element because the schema says nullable (optional) and the Go value is nil decides it under the same kind of tests - a route that asks one question more (or less) than its siblings reads the same value differently by look-up and by iteration (a comparison among the sites that have this shape: no floor)", 0)
 	{
 		type site struct {
